@@ -217,6 +217,24 @@ def plant(r, stmts, shell):
     raise ValueError(kind)
 
 
+# Literals juxtaposed *inside a group* of a word: nothing is space-separated, so the statement's converse clause
+# applies (must be accepted).  (text of the word, literals meet inside a group?)
+NESTED_JUXTAPOSITION = [
+    ('-((c)(d))', True), ('k=[(c)(d)]', True), ('--o=((u)(v)|w)', True), ('p(q(r)(s))...', True), ('-(c(d))', True),
+    ('y(((c|a)d)(d(b|c)))', True), ('z=(v"first"(w))', True),
+    ('x((a|c)d)(d(b|c))', False), ('t:<NJ>', False), ('-((a|c)(b|d))', False), ('k=[(a|b)(c)...]', False),
+    ('((c)(d))', False), ('[(c)(d)]', False), ('(c)(d)', False), ('-((c)<UU>)', False), ('x(c "dd")(d)', False),
+]
+
+
+def nested_juxtaposition_case(r):
+    w, meets = r.choice(NESTED_JUXTAPOSITION)
+    extra = 'cmd nestcase %s%s;\n' % (w, r.choice(['', ' end', ' [end]']))
+    if '<NJ>' in w:
+        extra += '<NJ> = (c)(d);\n'
+    return extra, meets
+
+
 def make_jobs(tier, seed):
     k = 40 if tier == 'quick' else 320
     return [('j', seed * 1000003 + i, 40) for i in range(k)]
@@ -245,12 +263,24 @@ def run_job(job, acc):
             if r.random() < 0.3:
                 # clean: accepted for every shell
                 text, _, _ = gast.print_grammar(base, layout=r if r.random() < 0.3 else None)
+                plain_text, meets = text, False
+                if r.random() < 0.3:
+                    extra, meets = nested_juxtaposition_case(r)
+                    text = text + extra
+                    acc.count('clean_with_literals_juxtaposed_inside_a_group' if meets else
+                              'clean_with_nested_juxtaposition')
                 for shell in common.SHELLS:
                     rc, out, err = comp.compile_text(text, shell)
                     acc.evals += 1
                     acc.count('clean_runs')
                     if rc != 0:
-                        acc.violation({'sig': 'clean-grammar-rejected', 'grammar': text, 'shell': shell,
+                        sig = 'clean-grammar-rejected'
+                        if meets and rc == 1 and KINDS['spaces'][1] in first_diag(err) and \
+                                comp.compile_text(plain_text, shell)[0] == 0:
+                            # the grammar is fine without that one statement and the complaint is about adjacent
+                            # literals: the recorded finding, nothing else
+                            sig = 'clean-grammar-rejected:literals-juxtaposed-inside-a-group-of-a-word'
+                        acc.violation({'sig': sig, 'grammar': text, 'shell': shell,
                                        'observed': err.decode('utf-8', 'replace')[:600], 'rc': rc,
                                        'origin': 'seed=%d #%d' % (s, i)})
                     if any(st[0] == 'def' for st in base):
